@@ -1276,3 +1276,25 @@ def param_string_escapes(P, R, rule, units):
                  key='escape:%s:%s' % (f.name, l.get('field')), nontrivial=not why)
     R.ob(rule, True, None, 'scanned %s for caller-owned texts stored into heap objects' % ', '.join(sorted(units)), key='escape-scan', nontrivial=False)
     return n
+
+
+def guard_says_nonempty(g, a):
+    """Does the relation g (lhs, op, rhs), known to hold, say that the C string `a` has at least one character?
+    Forms: a[0] != 0, *a != 0, a[0] == 'x', strlen(a) != 0 / > 0 / >= 1, strcmp(a, "") != 0."""
+    from .model import sx as _sx, const_of as _c
+    l, op, r = g[0], g[1], g[2]
+    if not isinstance(l, dict):
+        return False
+    k = _c(r)
+    first = (l.get('k') == 'idx' and _sx(l.get('base')) == _sx(a) and _c(l.get('index')) == 0) or \
+            (l.get('k') == 'un' and l.get('op') == '*' and _sx(l.get('e')) == _sx(a))
+    if first:
+        return (op == '!=' and k == 0) or (op == '==' and isinstance(k, int) and k != 0) or (op == '>' and isinstance(k, int) and k >= 0)
+    if l.get('k') == 'callref' and l.get('callee') in ('strlen', 'strnlen') and l.get('args') and _sx(l['args'][0]) == _sx(a):
+        return (op == '!=' and k == 0) or (op == '>' and isinstance(k, int) and k >= 0) or (op == '>=' and isinstance(k, int) and k >= 1)
+    if l.get('k') == 'callref' and l.get('callee') in ('strcmp', 'strcasecmp') and len(l.get('args') or ()) == 2:
+        x, y = l['args']
+        other = y if _sx(x) == _sx(a) else x if _sx(y) == _sx(a) else None
+        if other is not None and other.get('k') == 'str' and other.get('v') == '':
+            return op == '!=' and k == 0
+    return False
